@@ -257,7 +257,13 @@ def check(run, M, tier):
         run.check(seen == {("full", None), ("valid", True), ("valid", False)}, "V3", f.name + " cases", f.loc(), "three cases (full, valid m>=n, valid m<n)",
                   "%s distinguishes the cases %s; expected full / valid with data >= filter / valid with data < filter" % (f.name, sorted(seen, key=str)), stmt="V3:cases:" + f.name)
         alls = [c for c in calls_in(f.node) if isinstance(c.func, ast.Name) and c.func.id == "all"]
-        okall = len(alls) == 1 and unparse(alls[0].args[0]).replace(" ", "") == "(m_d>=n_dform_d,n_dinzip(m,n))"
+        okall = False
+        if len(alls) == 1:
+            # compared as terms (comparison normal form), so `n_d <= m_d`, other bound names etc. are the same predicate
+            env_ = {"m": T.sym("m"), "n": T.sym("n")}
+            got_t = VN(M, f).ev(alls[0], State(dict(env_)))
+            want_t = VN(M, f).ev(ast.parse("all(m_d >= n_d for m_d, n_d in zip(m, n))", mode="eval").body, State(dict(env_)))
+            okall = T.enc(got_t) == T.enc(want_t)
         run.check(okall, "V3", f.name + " predicate", f.loc(), "predicate is all(m_d >= n_d)", "%s decides on `%s`; expected all(m_d >= n_d for m_d, n_d in zip(m, n))"
                   % (f.name, unparse(alls[0]) if alls else "nothing"), stmt="V3:pred:" + f.name)
     # ---- V4 loop nests
